@@ -282,8 +282,10 @@ static int check_exec(const vs_exec *x, const char *how, int check_logs) {
         if (check_logs) {
             logsig s = log_signature(x, t);
             if (s.hash != SOLO_LOG[t].hash || s.n != SOLO_LOG[t].n) {
-                vh_fail(C17_OPS[TS[t].ops[0]].name, "path_depends_on_schedule", "untagged", "%s: %s: thread %d performed %zu memory events (solo: %zu) or a different sequence", HNAME, how, t, s.n, SOLO_LOG[t].n);
-                bad = 1;
+                /* not a violation by itself (a lock-protected cache would legitimately do this): it only means that the
+                 * "no conflict => one execution decides all schedules" shortcut is unavailable for this harness, so the
+                 * verdict rests on the conflict computation and on the enumerated schedules */
+                vh_count("harness_runs_with_schedule_dependent_path", 1);
             }
         }
     }
